@@ -650,6 +650,10 @@ func (x *Exec) VerifyFunc(fn *ssa.Function, spec *FuncSpec) (obls []*Obligation,
 				err = fmt.Errorf("%s: %s", shortFuncName(fn), u.msg)
 				return
 			}
+			if msg, ok := r.(string); ok && strings.Contains(msg, "sort mismatch") {
+				err = fmt.Errorf("%s: contract is ill-sorted: %s", shortFuncName(fn), truncate(msg, 300))
+				return
+			}
 			panic(r)
 		}
 	}()
